@@ -90,6 +90,68 @@ func (e *emitter) c05Returns(s *source, rel, goName, leanName string) {
 	e.stringList(leanName, "results returned by `"+goName+"` in "+rel, out)
 }
 
+// c05Stores lists, in syntactic order, every plain assignment to a selector expression (nested function
+// literals included) as `store <lhs> = <rhs>`: WHICH value a branch stores (the generic skeleton only says
+// that something is stored).
+func (e *emitter) c05Stores(s *source, rel, goName, leanName string) {
+	fd := s.findFunc(rel, goName)
+	if fd == nil {
+		e.errors = append(e.errors, "function "+goName+" not found in "+rel)
+		e.stringList(leanName, "MISSING: "+goName+" in "+rel, []string{"MISSING"})
+		return
+	}
+	var out []string
+	ast.Inspect(fd.Body, func(n ast.Node) bool {
+		if x, ok := n.(*ast.AssignStmt); ok && x.Tok == token.ASSIGN && len(x.Lhs) == 1 && len(x.Rhs) == 1 {
+			if _, ok := x.Lhs[0].(*ast.SelectorExpr); ok {
+				out = append(out, "store "+s.src(x.Lhs[0])+" = "+s.src(x.Rhs[0]))
+			}
+		}
+		return true
+	})
+	e.stringList(leanName, "values stored by `"+goName+"` in "+rel, out)
+}
+
+// c05IfCalls lists, for every `if <cond> { … }` directly in the body of the function, the condition and the
+// calls (with arguments) named in `calls` inside its then-branch: the wiring table of a middleware chain.
+func (e *emitter) c05IfCalls(s *source, rel, goName, leanName string, calls map[string]bool) {
+	fd := s.findFunc(rel, goName)
+	if fd == nil {
+		e.errors = append(e.errors, "function "+goName+" not found in "+rel)
+		e.stringList(leanName, "MISSING: "+goName+" in "+rel, []string{"MISSING"})
+		return
+	}
+	var out []string
+	for _, st := range fd.Body.List {
+		ifs, ok := st.(*ast.IfStmt)
+		if !ok {
+			continue
+		}
+		var found []string
+		ast.Inspect(ifs.Body, func(n ast.Node) bool {
+			if x, ok := n.(*ast.CallExpr); ok && calls[s.src(x.Fun)] {
+				tok := s.src(x.Fun) + "("
+				for i, a := range x.Args {
+					if i > 0 {
+						tok += ", "
+					}
+					tok += s.src(a)
+				}
+				found = append(found, tok+")")
+			}
+			return true
+		})
+		for _, f := range found {
+			els := ""
+			if ifs.Else != nil {
+				els = " (has else)"
+			}
+			out = append(out, "if "+s.src(ifs.Cond)+" then "+f+els)
+		}
+	}
+	e.stringList(leanName, "guarded calls of `"+goName+"` in "+rel, out)
+}
+
 func init() {
 	register("C05", func(s *source, e *emitter) {
 		none := map[string]bool{}
@@ -108,6 +170,8 @@ func init() {
 		e.c05Details(s, "core/syncx/timeoutlimit.go", "NewTimeoutLimit", "newTimeoutLimitDetails", map[string]bool{"NewLimit": true})
 		e.shapeDef(s, "core/syncx/cond.go", "Cond.WaitWithTimeout", "condWaitShape")
 		e.shapeDef(s, "core/syncx/cond.go", "Cond.Signal", "condSignalShape")
+		e.c05Details(s, "core/syncx/cond.go", "NewCond", "newCondDetails", none)
+		e.c05Returns(s, "core/syncx/cond.go", "Cond.WaitWithTimeout", "condWaitResults")
 		e.shapeDef(s, "core/syncx/pool.go", "NewPool", "newPoolShape")
 		e.c05Details(s, "core/syncx/pool.go", "NewPool", "newPoolDetails", map[string]bool{"sync.NewCond": true})
 		e.shapeDef(s, "core/syncx/pool.go", "Pool.Get", "poolGetShape")
@@ -122,6 +186,17 @@ func init() {
 		e.shapeDef(s, "core/threading/routines.go", "GoSafe", "goSafeShape")
 		e.shapeDef(s, "core/threading/routines.go", "RunSafe", "runSafeShape")
 		e.shapeDef(s, "core/threading/workergroup.go", "WorkerGroup.Start", "workerGroupShape")
+		e.shapeDef(s, "core/threading/routinegroup.go", "RoutineGroup.Run", "rgRunShape")
+		e.shapeDef(s, "core/threading/routinegroup.go", "RoutineGroup.RunSafe", "rgRunSafeShape")
+		e.shapeDef(s, "core/threading/routinegroup.go", "RoutineGroup.Wait", "rgWaitShape")
+		e.shapeDef(s, "core/syncx/barrier.go", "Barrier.Guard", "barrierGuardShape")
+		e.shapeDef(s, "core/syncx/barrier.go", "Guard", "guardShape")
+		e.c05IfCalls(s, "rest/engine.go", "engine.buildChainWithNativeMiddlewares", "engineMaxConnsWiring",
+			map[string]bool{"handler.MaxConnsHandler": true})
+		e.c05Stores(s, "core/mr/mapreduce.go", "WithWorkers", "mrWithWorkersStores")
+		e.c05Stores(s, "core/fx/stream.go", "WithWorkers", "fxWithWorkersStores")
+		e.constDef(s, "core/mr/mapreduce.go", "defaultWorkers", "mrDefaultWorkers")
+		e.constDef(s, "core/fx/stream.go", "defaultWorkers", "fxDefaultWorkers")
 		e.shapeDef(s, "rest/handler/maxconnshandler.go", "MaxConnsHandler", "maxConnsShape")
 		e.c05Details(s, "rest/handler/maxconnshandler.go", "MaxConnsHandler", "maxConnsDetails", map[string]bool{"syncx.NewLimit": true})
 		e.shapeDef(s, "core/mr/mapreduce.go", "executeMappers", "executeMappersShape")
